@@ -2,7 +2,7 @@
 """Run every registered check against behaviour-preserving refactorings.
 Every report is a false alarm.
 
-usage: tools/benign_run.py [--root /tmp/benign] [--ids C01,C02] [--jobs 8] [--checks C01,...] [--keep DIR]
+usage: tools/benign_run.py [--root /verif/benign] [--ids C01,C02] [--jobs 8] [--checks C01,...] [--keep DIR]
 <root>/<ID>/out/<n>/patch.diff is applied to a private scratch worktree of /repo HEAD (removed afterwards), the
 suite is NOT re-run (the authors did), every check runs with a snapshot of bin/phpverif and a shadow verification
 directory. With --keep, patches that raise an alarm are copied to DIR/<ID>-<n>/ with the report.
@@ -16,7 +16,7 @@ def sh(cmd, cwd=None, timeout=1800):
     return r.returncode, r.stdout + r.stderr
 
 ap = argparse.ArgumentParser()
-ap.add_argument('--root', default='/tmp/benign'); ap.add_argument('--ids'); ap.add_argument('--jobs', type=int, default=8)
+ap.add_argument("--root", default="/verif/benign"); ap.add_argument('--ids'); ap.add_argument('--jobs', type=int, default=8)
 ap.add_argument('--checks'); ap.add_argument('--keep'); ap.add_argument('--only')
 a = ap.parse_args()
 man = json.load(open('/verif/MANIFEST.json'))
@@ -31,15 +31,19 @@ shutil.copy('/verif/known_findings.json', vf + '/known_findings.json')
 os.makedirs(vf + '/bin'); shutil.copy('/verif/bin/goyacc', vf + '/bin/goyacc')
 total = alarms = 0
 try:
-    for pid in sorted(os.listdir(a.root)):
+    entries = []
+    for name in sorted(os.listdir(a.root)):
+        if os.path.exists(os.path.join(a.root, name, 'patch.diff')) and '-' in name:   # flat: <ID>-<n>/
+            entries.append((name.split('-')[0], name.split('-')[1], a.root, name))
+        elif os.path.isdir(os.path.join(a.root, name, 'out')):                          # agent layout: <ID>/out/<n>/
+            for n in sorted(os.listdir(os.path.join(a.root, name, 'out'))):
+                entries.append((name, n, os.path.join(a.root, name, 'out'), n))
+    for pid, n, od, sub in entries:
         if a.ids and pid not in a.ids.split(','):
             continue
-        od = os.path.join(a.root, pid, 'out')
-        if not os.path.isdir(od):
-            continue
-        for n in sorted(os.listdir(od)):
-            patch = os.path.join(od, n, 'patch.diff')
-            if not os.path.exists(patch) or not os.path.exists(os.path.join(od, n, 'meta.json')) or (a.only and '%s-%s' % (pid, n) not in a.only.split(',')):
+        if True:
+            patch = os.path.join(od, sub, 'patch.diff')
+            if not os.path.exists(patch) or not os.path.exists(os.path.join(od, sub, 'meta.json')) or (a.only and '%s-%s' % (pid, n) not in a.only.split(',')):
                 continue
             rc, out = sh('git apply %s' % patch, cwd=wt)
             if rc != 0:
@@ -60,7 +64,7 @@ try:
             total += 1
             mech = ''
             try:
-                mech = json.load(open(os.path.join(od, n, 'meta.json'))).get('mechanism', '')
+                mech = json.load(open(os.path.join(od, sub, 'meta.json'))).get('mechanism', '')
             except Exception:
                 pass
             if det:
@@ -76,7 +80,7 @@ try:
                         print('      %s %s' % (cid, l[:300]))
                 if a.keep:
                     d = os.path.join(a.keep, '%s-%s' % (pid, n)); os.makedirs(d, exist_ok=True)
-                    shutil.copy(patch, d); shutil.copy(os.path.join(od, n, 'meta.json'), d)
+                    shutil.copy(patch, d); shutil.copy(os.path.join(od, sub, 'meta.json'), d)
                     json.dump(det, open(os.path.join(d, 'alarms.json'), 'w'), indent=1)
             else:
                 print('%s-%s [%s]: silent' % (pid, n, mech))
